@@ -91,7 +91,10 @@ var c17Hostile = []string{"..", ".", "", "a/b", "d/inner", "d/x", "d/new", "x/y"
 	c17Outside + "/new2", "../sib", "../new3", "../../outside/target", "../../outside/new4", "d/../../sib", "a//b", "a/", "/", "./a", "a/.",
 	"a/..", "d/..", "a\x00b", "\xc3\xbc", "a b", "-r", "a\nb", "..a", "...", "in/inner", "in/new5", "dd/sib", "dd/new6", "ld/n1/n2", "x/n1/n2", "dd/w/new7/new8", "d/n1/n2",
 	"ld/n1/evil", "ld/n1/n2/evil", "ld/n1/n2/n3/evil", "ld/n1/n2/n3/victim", "ld/logs/evil.txt", "dd/out2/evil", "dd/out2/t",
-	"in/../ld/n1/evil", "e/x", "ld/n1", "ld/n1/n2/n3"}
+	"in/../ld/n1/evil", "e/x", "ld/n1", "ld/n1/n2/n3",
+	// a backslash is an ordinary character of a POSIX file name
+	"..\\sib", "..\\new9", "a\\..\\..\\sib", "..\\..\\outside\\target", "\\abs", "a/..\\..\\b", "d\\x", "d/..\\..\\sib", "\\",
+	"..\\", "a\\b\\c", ".\\a", "..\\..\\..\\..\\etc"}
 
 var c17Targets = []string{c17Outside + "/target", c17Outside + "/dir", c17Outside + "/newfile", c17Outside + "/dir/newfile",
 	"../sib", "../new7", "../../outside/target", "../../outside/dir", "../../outside/new8", "d", "a", ".", "..", "", c17Out, c17Out + "/d", "x", "loop",
@@ -480,6 +483,14 @@ func init() {
 			{"separators-below-prepopulated-symlink-existing-subdir-deep", with(fsLink(c17Outside+"/dir", outp("ld")...)), VL{rootN(dirV(0, de("ld/n1/n2/n3/evil", f1("PWNED"))))}, 1},
 			{"separators-below-symlink-from-earlier-root", with(), VL{rootN(dirV(0, de("a", linkV(c17Outside+"/dir")))), rootN(dirV(0, de("a/logs/evil.txt", f1("PWNED")), de("a/n1/x", dirV(0))))}, 0},
 			{"separators-below-dotdot-symlink-existing-sibling", with(), VL{rootN(dirV(0, de("up", linkV("..")), de("up/out2/evil", f1("PWNED")), de("up/out2/t", f1("PWNED"))))}, 0},
+			{"backslash-dotdot-names", with(), VL{rootN(dirV(0, de("..\\sib", f1("PWNED")), de("..\\..\\outside\\target", f1("PWNED")), de("a\\..\\..\\sib", f1("PWNED")), de("\\abs", f1("A")), de("plain", f1("P"))))}, 0},
+			{"backslash-dotdot-dir-and-link", with(), VL{rootN(dirV(0, de("..\\out2", dirV(0, de("t", f1("PWNED")))), de("..\\newlink", linkV("x")), de("a/..\\..\\b", f1("B"))))}, 0},
+			{"backslash-names-nested-and-sharded", with(), VL{rootN(dirV(0, de("d", dirV(1, de("..\\..\\sib", f1("PWNED")), de("..\\x", f1("X")), de("in\\side", f1("I"))))))}, 0},
+			{"backslash-names-prepopulated", with(fsDir(outp("d")...)), VL{rootN(dirV(0, de("d\\..\\..\\sib", f1("PWNED")), de("d/..\\..\\..\\outside\\dir\\keep", f1("PWNED"))))}, 0},
+			{"metadata-on-symlink-to-outside-file", with(), VL{rootN(dirV(0, de("l", withMode(linkV(tgt), 0o777)), de("after", f1("A"))))}, 0},
+			{"metadata-on-symlink-to-outside-dir", with(), VL{rootN(dirV(0, de("l", withMode(linkV(c17Outside+"/dir"), 0o700)), de("r", withMode(linkV("../sib"), 0o644)), de("dang", withMode(linkV(c17Outside+"/nothing"), 0o600))))}, 0},
+			{"metadata-on-symlink-sharded-and-second-root", with(), VL{rootN(dirV(1, de("l", withMode(linkV(c17Outside+"/dir/keep"), 0o400)))), rootN(dirV(0, de("m", withMode(linkV("../../outside/dir/n1"), 0o755))))}, 0},
+			{"metadata-on-file-over-prepopulated-symlink", with(fsLink(tgt, outp("x")...)), VL{rootN(dirV(0, de("x", withMode(f1("PWNED"), 0o644))))}, 1},
 			{"symlink-chain-then-file", with(), VL{rootN(dirV(0, de("y", linkV(tgt)), de("x", linkV("y")), de("x", f1("PWNED"))))}, 0},
 			{"missing-blocks", with(), VL{rootN(dirV(0, de("a", missV([]byte("1"))), de("b", f1("B")), de("c", fileErrV([]byte("0123456789"), 3, 2, 1))))}, 0},
 			{"missing-root", with(), VL{rootN(dirV(0, de("a", f1("A")))), rootN(missV([]byte("2")))}, 0},
